@@ -123,16 +123,40 @@ func runPack(c *kase) {
 	}
 	res := "ok"
 	o := vh.Guard(func() {
-		p := pack.NewStatGeneralPack()
+		// half of the cases on a pack of another pack type (NewStatGeneralPackType): such a pack also
+		// carries DataStartTime behind the table
+		typed := len(c.line)%2 == 1
+		mk := func() *pack.StatGeneralPack {
+			if typed {
+				return pack.NewStatGeneralPackType(0x1234)
+			}
+			return pack.NewStatGeneralPack()
+		}
+		p := mk()
 		p.Id = "verif"
 		p.Pcode, p.Oid, p.Time = 12345, 7, 1700000000000
+		if typed {
+			p.DataStartTime = 1700000123456
+		}
 		for i, cl := range cols {
 			p.Put(keys[i], listOf(cl.t, cl.vs).any())
 		}
 		out := gio.NewDataOutputX()
 		p.Write(out)
-		p2 := pack.NewStatGeneralPack()
-		p2.Read(gio.NewDataInputX(out.ToByteArray()))
+		p2 := mk()
+		in := gio.NewDataInputX(out.ToByteArray())
+		p2.Read(in)
+		switch {
+		case typed && (p2.GetPackType() != 0x1234 || p2.DataStartTime != 1700000123456):
+			res = fmt.Sprintf("round-trip: pack of type 0x1234 reads back with type %#x, DataStartTime %d", p2.GetPackType(), p2.DataStartTime)
+			return
+		case !typed && p2.GetPackType() != pack.PACK_STAT_GENERAL:
+			res = fmt.Sprintf("round-trip: NewStatGeneralPack().GetPackType() = %#x", p2.GetPackType())
+			return
+		case in.Available() != 0:
+			res = fmt.Sprintf("round-trip: %d bytes of the pack left unread", in.Available())
+			return
+		}
 		k2, c2, err := tableOf(p2)
 		if err != "" {
 			res = "round-trip: " + err
